@@ -3,6 +3,7 @@
 use vcore::runner::{unhex, Mode, Report, Tier};
 
 mod c01;
+mod c02;
 mod c07;
 mod c08;
 mod c09;
@@ -50,6 +51,7 @@ fn main() {
     }
     match id.as_str() {
         "C01" => c01::run(report),
+        "C02" => c02::run(report),
         "C07" => c07::run(report),
         "C08" => c08::run(report),
         "C09" => c09::run(report),
